@@ -14,9 +14,11 @@ import time
 
 from .. import tlc as tlcmod
 from .. import tracecheck
-from ..gcheck import GFamily, run_batches, linear_replay, replay_file
+from .. import l2
+from ..gcheck import GFamily, run_batches, linear_replay, replay_file, schedule_from_trace
 from ..report import MachineryError
 from ..families import csrbank as fam
+from ..families import csrbank_l2 as cl
 
 INVS = ["AddressesDisjoint", "ResetValues", "WriteExact", "AtomicCommit", "DeviceWrite", "Isolation",
         "ReadNextCycle", "ZeroWhenUnselected", "StrobesSingleCycle", "FieldOffsets", "PulseFieldsOneCycle"]
@@ -44,7 +46,18 @@ FAMILY = GFamily("csrbank/CsrBankGraph", TRACE, FACTORY, clause_map={k: k for k 
 
 
 # ------------------------------------------------------------------------------------------- G-mode
-def g_mode(report, tier):
+def _l2_on_accept(state):
+    """L2 lane: the complete graphs of an accepted batch are handed to the model conformance check"""
+    def cb(gl):
+        duts = cl.reshape_duts(l2.graph_cases(gl, cl.LANE))
+        n, dr = l2.conformance(cl.LANE, duts)
+        state["graph_cases"] += n
+        state["graph_duts"] += len(duts)
+        state["drifts"] += dr
+    return cb
+
+
+def g_mode(report, tier, l2state=None):
     cfgs = fam.configs(tier)
     if tier == "thorough":
         cfgs = cfgs + fam.sweep_configs()
@@ -61,7 +74,8 @@ def g_mode(report, tier):
     rest = [c for c in cfgs if not (c[0]["ordering"] == "little" and c[0]["atomic_multiword"])]
     per = 6
     batches = [rest[i:i + per] for i in range(0, len(rest), per)] + [[c] for c in alone]
-    stats = run_batches(FAMILY, report, batches, INVS, [], spec_budget=400000, total_budget=2000000)
+    stats = run_batches(FAMILY, report, batches, INVS, [], spec_budget=400000, total_budget=2000000,
+                        on_accept=_l2_on_accept(l2state) if l2state is not None else None)
     report.add(duts_explored=len(stats), per_dut=stats)
 
 
@@ -72,15 +86,16 @@ SRAM_FAMILY = GFamily("csrbank/CsrSramGraph", "csrbank/CsrSramTrace", "harness.f
                           s["w"], s["depth"], s["mw"], s["paging"], ", read_only" if s.get("ro") else ""))
 
 
-def sram_windows(report, tier):
+def sram_windows(report, tier, l2state=None):
     cfgs = fam.sram_configs(tier)
     stats = run_batches(SRAM_FAMILY, report, [cfgs[i:i + 6] for i in range(0, len(cfgs), 6)], SRAM_INVS, [],
-                        spec_budget=400000, total_budget=2000000)
+                        spec_budget=400000, total_budget=2000000,
+                        on_accept=_l2_on_accept(l2state) if l2state is not None else None)
     report.add(sram_windows_explored=len(stats), per_dut=stats)
 
 
 # ------------------------------------------------------------------------------------------- construction
-def construction_cases(report, tier, seed):
+def construction_cases(report, tier, seed, l2state=None):
     res = tlcmod.run("csrbank/CsrBankCases", "INIT Init\nNEXT Next\nCHECK_DEADLOCK FALSE\n",
                      env={"CSRBANK_TIER": tier}, workers=1, timeout=600)
     if res.errors or res.violated:
@@ -102,6 +117,12 @@ def construction_cases(report, tier, seed):
     fails, st = tracecheck.validate(TRACE, traces, ["AddressesDisjoint"], workers=8, timeout=1500)
     report.add(states=st["states"], transitions=st["transitions"], traces_validated_against_impl=len(traces),
                construction_cases=len(traces), constructions_refused=nrej, refusals_by_exception=errs)
+    if l2state is not None:
+        # L2 lane: the model of _sort_gathered_items / do_finalize / GenericBank must build the same map or refuse
+        # with the same exception as the real constructor did, for every enumerated register list
+        n, dr = cl.construction_conformance([t["cfg"] for t in traces])
+        l2state["constructions"] += n
+        l2state["drifts"] += dr
     if errs.get("IndexError"):
         report.note("%d register lists with a fixed location n == number of registers are refused with an "
                     "IndexError by csr.py:_sort_gathered_items (`item.n > items_length` should be `>=`); a refusal "
@@ -127,10 +148,10 @@ def construction_cases(report, tier, seed):
 
 
 # ------------------------------------------------------------------------------------------- T-mode
-def long_runs(report, tier, seed):
+def long_runs(report, tier, seed, l2state=None):
     rnd = random.Random(seed * 7919 + 12)
     nconf, ncyc = (30, 250) if tier == "quick" else (160, 500)
-    traces, meta = [], []
+    traces, meta, run_duts = [], [], []
     for i in range(nconf):
         w = (8, 32, 16)[i % 3] if i % 6 else 8
         for _ in range(50):
@@ -141,13 +162,26 @@ def long_runs(report, tier, seed):
         else:
             raise MachineryError("no buildable random register set")
         sched = fam.random_schedule(rnd, spec, cfg, ncyc)
-        ev = linear_replay(FACTORY, spec, sched)
+        m = cl.model_cfg(spec, cfg) if l2state is not None else None
+        if m is not None:
+            # one cycle-by-cycle run of the real netlist serves both T-mode (inputs, outputs) and the L2 lane
+            # (registers before / after every clock edge, read by name)
+            reset, cases = l2.run_cases(FACTORY, spec, cl.LANE.proj_path, sched)
+            ev = [[c[1], c[2]] for c in cases]
+            run_duts.append({"spec": spec, "m": m, "reset": reset, "cases": cases})
+        else:
+            ev = linear_replay(FACTORY, spec, sched)
         traces.append({"cfg": cfg, "ev": ev})
         meta.append((spec, sched))
     fails, st = tracecheck.validate(TRACE, traces, INVS, workers=8, timeout=2400)
     report.add(states=st["states"], transitions=st["transitions"], traces_validated_against_impl=len(traces),
                long_run_cycles=sum(len(t["ev"]) for t in traces))
     report.sample({"long_run": describe(meta[0][0]), "first_cycles": traces[0]["ev"][:3]})
+    if l2state is not None:
+        n, dr = l2.conformance(cl.LANE, cl.reshape_duts(run_duts), workers=4)
+        l2state["run_duts"] += len(run_duts)
+        l2state["run_cases"] += n
+        l2state["drifts"] += dr
     done = set()
     for f in fails:
         if f["tid"] in done or len(done) >= 4:
